@@ -341,7 +341,7 @@ func stream(seed int64, tcp bool, consumer string, procs int, n int) {
 }
 
 func connResTaken(s *memsock.Sock, from int) bool {
-	for _, e := range s.Log()[from:] {
+	for _, e := range s.LogFrom(from) {
 		if e.Kind == memsock.Rx && e.Taken && e.P.Service == spec.SvcConnRes {
 			return true
 		}
